@@ -674,7 +674,7 @@ func (p *parser) continueStatement() ast.Statement {
 
 func (p *parser) blockStatement(symbols ast.SymbolTable) ast.Statement {
 	colon := p.previous()
-	if p.peek().Line() <= colon.Line() {
+	if !p.atEnd() && p.peek().Line() <= colon.Line() { // at the end (e.g. the empty body of a generic function) there is nothing on the line
 		p.err(ddperror.SYN_UNEXPECTED_TOKEN, p.peek().Range, "Nach einem Doppelpunkt muss eine neue Zeile beginnen")
 	}
 	statements := make([]ast.Statement, 0)
